@@ -1,5 +1,6 @@
 (* Properties/C15.v — merge laws. *)
 From AY Require Import Model.Merge Spec.Update Proofs.MergePlain Proofs.Laws Proofs.Local.
+From AY Require Import Model.Loader Proofs.MergeGen.
 
 (* Repeating the last document does not change the result: for every history of tag-free mapping documents and every
    well-formed last document (unique keys, no negative index keys), building docs ++ [d; d] and docs ++ [d] gives trees of
@@ -49,6 +50,45 @@ Proof.
   rewrite <- (G (d0 :: rest) (d0' :: rest')); [exact H|]. cbn [map]. now rewrite E0, Er.
 Qed.
 Print Assumptions C15_unsafe_marks_neutral_plain.
+
+(* ... and so are safety marks and user metadata placed on ANY nodes (tag-free otherwise): two histories of mapping documents
+   (as the loader builds them from the tagged YAML graph, Model.Loader.load_doc) that differ only in the tags - explicit !unsafe
+   on inner nodes, !metadata without a priority, source-level safety and source names - merge to the same data, or both fail
+   with a MergeError.  ysafe_only: no priority / delete / new tag anywhere, unique keys. *)
+Theorem C15_unsafe_marks_anywhere_neutral : forall e c c' y0 ys y0' ys',
+  Forall ysafe_only (y0 :: ys) -> Forall ysafe_only (y0' :: ys') ->
+  forallb is_YM (y0 :: ys) = true -> forallb is_YM (y0' :: ys') = true ->
+  map yerase (y0 :: ys) = map yerase (y0' :: ys') ->
+  same_outcome (flatten e (map (load_doc c) (y0 :: ys))) (flatten e (map (load_doc c') (y0' :: ys'))).
+Proof. exact unsafe_marks_neutral. Qed.
+Print Assumptions C15_unsafe_marks_anywhere_neutral.
+
+Example C15_unsafe_example :
+  let U := mkT None None None (Some false) [] in
+  let M := mkT None None None None [(7, 8)] in
+  let y0 t1 t2 := YM T0 [(KS 1, YM t1 [(KS 2, YQ t2 [YS T0 (SInt 1); YS t1 (SInt 2)])]); (KS 3, YS T0 (SInt 3))] in
+  let y1 t1 t2 := YM t2 [(KS 1, YM T0 [(KS 2, YM t1 [(KI 1, YS t2 (SInt 9))]); (KS 4, YS t1 SNone)])] in
+  Forall ysafe_only [y0 U M; y1 M U] /\ Forall ysafe_only [y0 T0 T0; y1 T0 T0] /\
+  map yerase [y0 U M; y1 M U] = map yerase [y0 T0 T0; y1 T0 T0] /\
+  option_map erase (match flatten [] (map (load_doc (mkLC (Some false) 1)) [y0 U M; y1 M U]) with Ok n => Some n | _ => None end)
+  = Some (PD [(KS 1, PD [(KS 2, PL [PS (SInt 1); PS (SInt 9)]); (KS 4, PS SNone)]); (KS 3, PS (SInt 3))]).
+Proof.
+  assert (T : forall t, t = T0 \/ t = mkT None None None (Some false) [] \/ t = mkT None None None None [(7, 8)] -> tsafe t).
+  { intros t [ E | [ E | E ] ]; subst t; repeat split. }
+  assert (N1 : forall (a b : key), a <> b -> NoDup [a; b]) by (intros a b H; constructor; [intros [E|[]]; congruence|constructor; [intros []|constructor]]).
+  assert (N0 : forall (a : key), NoDup [a]) by (intro a; constructor; [intros []|constructor]).
+  assert (Y : forall t1 t2, (t1 = T0 \/ t1 = mkT None None None (Some false) [] \/ t1 = mkT None None None None [(7, 8)]) ->
+                            (t2 = T0 \/ t2 = mkT None None None (Some false) [] \/ t2 = mkT None None None None [(7, 8)]) ->
+            ysafe_only (YM T0 [(KS 1, YM t1 [(KS 2, YQ t2 [YS T0 (SInt 1); YS t1 (SInt 2)])]); (KS 3, YS T0 (SInt 3))]) /\
+            ysafe_only (YM t2 [(KS 1, YM T0 [(KS 2, YM t1 [(KI 1, YS t2 (SInt 9))]); (KS 4, YS t1 SNone)])])).
+  { intros t1 t2 H1 H2. pose proof (T _ H1) as A1. pose proof (T _ H2) as A2. pose proof (T T0 (or_introl eq_refl)) as A0.
+    split; repeat first [ assumption | apply N0 | (apply N1; discriminate) | (constructor; cbn [map fst snd]) ]. }
+  destruct (Y (mkT None None None (Some false) []) (mkT None None None None [(7, 8)]) ltac:(auto) ltac:(auto)) as [Ya Yb].
+  destruct (Y (mkT None None None None [(7, 8)]) (mkT None None None (Some false) []) ltac:(auto) ltac:(auto)) as [Yc Yd].
+  destruct (Y T0 T0 ltac:(auto) ltac:(auto)) as [Ye Yf].
+  cbv zeta. split; [constructor; [exact Ya|constructor; [exact Yd|constructor]]|]. split; [constructor; [exact Ye|constructor; [exact Yf|constructor]]|].
+  split; vm_compute; reflexivity.
+Qed.
 
 (* the reference update is idempotent *)
 Theorem C15_update_idempotent : forall d, pwf d -> forall a r, upd a d = Ok r -> upd r d = Ok r.
